@@ -145,6 +145,7 @@ macro_rules! feed_impl {
 pub fn eval_cc(t: &mut Tables, w: &[&str]) -> Option<Obs> {
     match w {
         ["new", id] => { set_at(&mut t.cc, id.parse().ok()?, ControlChange14BitMessageScanner::new()); Some(ok_obs()) }
+        ["default", id] => { set_at(&mut t.cc, id.parse().ok()?, ControlChange14BitMessageScanner::default()); Some(ok_obs()) }
         ["copy", a, b] => { let x = (*t.cc.get(a.parse::<usize>().ok()?)?)?; set_at(&mut t.cc, b.parse().ok()?, x); Some(ok_obs()) }
         ["reset", id] => { t.cc.get_mut(id.parse::<usize>().ok()?)?.as_mut()?.reset(); Some(ok_obs()) }
         ["feed", id, which, s, d1, d2] => {
@@ -174,6 +175,7 @@ pub fn eval_cc(t: &mut Tables, w: &[&str]) -> Option<Obs> {
 pub fn eval_pn(t: &mut Tables, w: &[&str]) -> Option<Obs> {
     match w {
         ["new", id] => { set_at(&mut t.pn, id.parse().ok()?, ParameterNumberMessageScanner::new()); Some(ok_obs()) }
+        ["default", id] => { set_at(&mut t.pn, id.parse().ok()?, ParameterNumberMessageScanner::default()); Some(ok_obs()) }
         ["copy", a, b] => { let x = (*t.pn.get(a.parse::<usize>().ok()?)?)?; set_at(&mut t.pn, b.parse().ok()?, x); Some(ok_obs()) }
         ["reset", id] => { t.pn.get_mut(id.parse::<usize>().ok()?)?.as_mut()?.reset(); Some(ok_obs()) }
         ["feed", id, which, s, d1, d2] => {
@@ -220,13 +222,18 @@ pub fn alphabet(kind: &str, channels: &[u32]) -> Vec<Option<(u8, u8, u8)>> {
     }
     a.push(Some((0xF8, 0, 0)));                    // system message
     a.push(Some((0xF2, 6, 38)));
+    for &c in channels {
+        // system messages whose low status nibble equals the channel and whose data bytes look like contributing ones
+        let st = 0xF0 + c as u8;
+        if kind == "cc" { a.push(Some((st, 1, 5))); a.push(Some((st, 33, 5))); } else { a.push(Some((st, 6, 5))); a.push(Some((st, 98, 5))); a.push(Some((st, 38, 5))); }
+    }
     a.push(None);                                  // reset
     a
 }
 
 /// breadth-first product exploration: every reachable real scanner state (keyed by its Debug string) x every
 /// input of the alphabet.  Ids: 0 = scratch, state k has id k + 1.
-pub fn explore(out: &mut Out, kind: &str, channels: &[u32], max_states: usize) {
+pub fn explore(out: &mut Out, kind: &str, channels: &[u32], max_states: usize, strict_reset: bool) {
     let alpha = alphabet(kind, channels);
     let mut seen: HashMap<String, usize> = HashMap::new();
     let mut queue: VecDeque<usize> = VecDeque::new();
@@ -249,7 +256,8 @@ pub fn explore(out: &mut Out, kind: &str, channels: &[u32], max_states: usize) {
                 }
                 None => {
                     out.req(&format!("{} reset 0", kind));
-                    out.req(&format!("{} mustbenew 0", kind));
+                    // C17 demands equality with a new scanner; for the other properties it is only compared with the model
+                    out.req(&format!("{} {} 0", kind, if strict_reset { "mustbenew" } else { "isnew" }));
                 }
             }
             transitions += 1;
@@ -266,6 +274,8 @@ pub fn explore(out: &mut Out, kind: &str, channels: &[u32], max_states: usize) {
         }
     }
     out.stat("states", seen.len() as u64);
+    // 1 = the state bound was hit before a fixpoint was reached (the exploration is then incomplete; recorded)
+    out.stat("exploration_truncated", (seen.len() >= max_states) as u64);
     out.stat("transitions", transitions);
     out.stat("transitions_reporting", reports);
     out.stat("evaluations", transitions);
@@ -290,19 +300,20 @@ fn random_msg(rng: &mut Rng, kind: &str) -> (u8, u8, u8) {
 
 /// seeded random histories over the full alphabet on 16 channels, with resets, copies made in mid-history and
 /// encoder output injected
-pub fn random_histories(out: &mut Out, kind: &str, seed: u64, histories: usize, len: usize) {
+pub fn random_histories(out: &mut Out, kind: &str, seed: u64, histories: usize, len: usize, strict_reset: bool) {
     let mut rng = Rng(seed ^ 0x5CA9);
     let mut n = 0u64; let mut reports = 0u64;
     let impls = ["raw", "str", "frn"];
-    for _ in 0..histories {
-        out.req(&format!("{} new 1", kind));
+    for h in 0..histories {
+        // created through new() or through the derived Default, alternately
+        out.req(&format!("{} {} 1", kind, if h % 2 == 0 { "new" } else { "default" }));
         let mut copied = false;
         for _ in 0..len {
             let r = rng.below(100);
             let which = impls[rng.below(3) as usize];
             if r < 3 {
                 out.req(&format!("{} reset 1", kind));
-                out.req(&format!("{} mustbenew 1", kind));
+                out.req(&format!("{} {} 1", kind, if strict_reset { "mustbenew" } else { "isnew" }));
             } else if r < 5 {
                 out.req(&format!("{} copy 1 2", kind));
                 copied = true;
@@ -361,6 +372,28 @@ pub fn random_histories(out: &mut Out, kind: &str, seed: u64, histories: usize, 
                 if !l.starts_with('-') { reports += 1; }
             }
             n += 1;
+        }
+    }
+    // reset storms: progress on a channel, then k resets in a row (k around powers of two: lazily applied or
+    // counted resets must not wear off), then the message that would complete the stale progress
+    for k in [1u32, 2, 3, 255, 256, 257, 511, 512, 65535, 65536, 65537, 131072] {
+        for c in [0u8, 9, 15] {
+            out.req(&format!("{} new 1", kind));
+            if kind == "cc" {
+                out.req(&format!("cc feed 1 raw {} 1 5", 0xB0 + c));
+            } else {
+                out.req(&format!("pn feed 1 raw {} 99 3", 0xB0 + c));
+                out.req(&format!("pn feed 1 raw {} 98 37", 0xB0 + c));
+                out.req(&format!("pn feed 1 raw {} 38 9", 0xB0 + c));
+            }
+            for i in 0..k {
+                out.req(&format!("{} reset 1", kind));
+                // traffic on another channel in between must not matter
+                if i % 1000 == 7 { out.req(&format!("{} feed 1 raw {} 7 7", kind, 0xB0 + ((c + 1) % 16))); }
+            }
+            let l = out.req_ret(&format!("{} feed 1 raw {} {} 6", kind, 0xB0 + c, if kind == "cc" { 33 } else { 6 }));
+            out.oracle(&format!("{}-nothing-reported-after-{}-resets", kind, k), &format!("channel={}", c), l.starts_with('-'));
+            n += k as u64 + 4;
         }
     }
     out.stat("evaluations", n);
@@ -491,7 +524,7 @@ pub fn transparent(out: &mut Out, kind: &str, channels: &[u32]) {
                 None => { out.req(&format!("{} reset 0", kind)); }
             }
             let k = key(&out.st.tables, 0);
-            if !seen.contains_key(&k) {
+            if !seen.contains_key(&k) && seen.len() < 3_000 {
                 out.req(&format!("{} copy 0 {}", kind, next_id));
                 seen.insert(k, next_id);
                 queue.push_back(next_id);
